@@ -1,4 +1,5 @@
 import CstModel.Props.C18
+import CstModel.Props.GenData
 open Cst.C18
 #print axioms facts_ok
 #print axioms exclusion
@@ -12,3 +13,8 @@ open Cst.C18
 #print axioms dropped_exactly_once
 #print axioms try_set_under_read_lock_unsound
 #print axioms data_sharing_facts
+#print axioms Cst.Gen.d_set_data
+#print axioms Cst.Gen.d_try_set_data
+#print axioms Cst.Gen.d_get_data
+#print axioms Cst.Gen.d_clear_data
+#print axioms Cst.Gen.data_facts_agree
